@@ -1,4 +1,459 @@
-import PieModel.Build.Pie
+/-
+Property C03 (write-free fragment): closure of bottom-up builds.
+
+"After a bottom-up build in which every resource that changed since all known tasks were last
+consistent has been scheduled, every task known to the Pie instance is up to date: requiring any of
+them afterwards executes nothing and returns the from-scratch output for the current state.  This
+includes tasks that are newly required, or required again, by re-executed tasks during the
+bottom-up build."
+
+Setting: every checker semantics `sem` with `StampTotal sem` and `Reflexive sem`; every table of
+write-free task programs `body` with `Respects` and `OneChecker`; a `Pie` `p` whose store is
+well-formed, `Faithful`, `NoReservedDone`; a list `changed` of reported resources.  Hypotheses on
+the starting point (all in `Build/Closure/Defs.lean`):
+
+* `ShallowReq st` — every require dependency of a task with output points to a task with output
+  and is accepted by its checker against that output.  Bottom-up building silently assumes this;
+  it is destroyed by a partial top-down session (finding K1, kernel-checked below), re-established
+  by a bottom-up build (`C03_chain`), and holds of the tasks a returning top-down session made
+  consistent (`C03_shallowReq_after_topDown`);
+* `Reported st fs changed` — every resource whose recorded **read or write** stamp (of a task with
+  output) is not accepted against `fs` is in `changed`.  (With read stamps only the statement is
+  false for stores that contain write dependencies left by earlier, non-write-free programs: the
+  top-down check looks at write stamps, too.  Stores built by write-free programs contain none.)
+* `NoOrphan st` — a node without output has no recorded dependencies (no task was left partially
+  executed by an aborted session).  Without it the bottom-up build can execute a task twice
+  (`Props/C04Once.lean`), and queued nodes need not have an output.
+
+The invariant (`Build/Closure/Inv.lean`, `CI s ch X`; `ch` = executing stack, `X` = tasks popped
+from the queue whose requirers have not been re-checked yet): (I1) every task with output that is
+not `SC` (up to require edges into `X`) is queued or in `X`; (I2) every task in `s.consistent` is
+`Clean` (its whole cone has outputs, is `SC`, and is neither queued nor in `X`); queued nodes have
+an output, the queue is duplicate-free; nodes without output that are not executing have no
+edges; the edges of executing tasks are `reserved`, or point to consistent tasks / resources with
+accepted stamps; `Faithful`; the stack invariant `BFrames`.
+-/
+import PieModel.Props.C02
+import PieModel.Build.Closure.Sources
+import PieModel.Build.Closure.Check
+import PieModel.Build.Closure.OrphanTD
+
 namespace PieModel
-theorem C03_placeholder : True := trivial
+
+variable {sem : Sem} {body : Nat → Prog}
+
+/-! ### 1. scheduling establishes (I1) -/
+
+/-- The session state after `create_bottom_up_build` and `schedule_tasks_affected_by` for every
+reported resource is `schedAll` (`{ p.newSession with queue := [] }` is `p.newSession`). -/
+theorem C03_schedule_state (p : PieSt) (changed : List Nat) :
+    changed.foldl (fun s r => scheduleAffectedBy sem s r) { p.newSession with queue := [] } =
+      schedAll sem p.newSession changed := rfl
+
+/-- Scheduling only creates resource nodes: outputs and edges are those of `p.store`. -/
+theorem C03_schedule_store (p : PieSt) (changed : List Nat) (hw : p.store.WF) :
+    ResExt p.store (schedAll sem p.newSession changed).store :=
+  (schedAll_newSession sem p changed hw).2.1
+
+/-- **(I1) after scheduling.**  Every task node with an output that is not shallow-consistent
+w.r.t. the current resources is in the queue. -/
+theorem C03_schedule_establishes_I1 {p : PieSt} {changed : List Nat} (hw : p.store.WF)
+    (hn : p.store.NoReservedDone) (hsr : ShallowReq sem p.store)
+    (hrep : Reported sem p.store p.fs changed) (n : Nat)
+    (ho : (schedAll sem p.newSession changed).store.taskOutput n ≠ none)
+    (hsc : ¬ SC sem (schedAll sem p.newSession changed).store p.fs n) :
+    n ∈ (schedAll sem p.newSession changed).queue :=
+  schedule_establishes_I1 hw hn hsr hrep n ho hsc
+
+section
+variable (hst : StampTotal sem) (hrefl : Reflexive sem) (hwfb : WriteFreeBody body)
+  (hresp : ∀ t, Respects sem (body t)) (hone : ∀ t, OneChecker (body t))
+  {p : PieSt} {changed : List Nat} (hw : p.store.WF) (hf : Faithful sem body p.store)
+  (hn : p.store.NoReservedDone) (hno : NoOrphan p.store) (hsr : ShallowReq sem p.store)
+  (hrep : Reported sem p.store p.fs changed)
+
+/-! ### 2. the invariant -/
+
+include hw hf hn hno hsr hrep in
+/-- The invariant holds when `execute_scheduled` starts (empty stack, nothing exempt). -/
+theorem C03_invariant_start :
+    CI sem body p.fs (buStart sem p changed) [] [] ∧ TI (buStart sem p changed) [] [] :=
+  ci_start hw hf hn hno hsr hrep
+
+include hst hrefl hwfb hone in
+/-- **The main induction**: `CI` (with the trace invariant `TI`) is preserved by `buRequire`,
+`buMake`, `buExec`, `buExecAndSchedule`, `buRequireNow`, `buRun` when they return (`BuClos`
+spells out the six statements with their side conditions), for every fuel and every resource
+state `fs`. -/
+theorem C03_invariant_preserved (fs : List (Nat × Int)) (f : Nat) : BuClos sem body fs f :=
+  buClos hst hwfb hone hrefl f
+
+include hst hrefl hwfb hone in
+/-- ... and by `execute_scheduled`, after which the queue is empty. -/
+theorem C03_invariant_executeScheduled (fs : List (Nat × Int)) (f : Nat) (s s' : Sess)
+    (h : CI sem body fs s [] []) (hti : TI s [] [])
+    (hr : buExecuteScheduled sem body f s = (s', .ok ())) :
+    CI sem body fs s' [] [] ∧ TI s' [] [] ∧ s'.queue = [] :=
+  let ⟨a, b, c, _⟩ := buExecuteScheduled_closure hst hwfb hone hrefl f s h hti s' hr
+  ⟨a, b, c⟩
+
+/-! ### 3. closure -/
+
+include hst hrefl hwfb hone hw hf hn hno hsr hrep in
+/-- **C03 (closure).**  After a returning bottom-up build the queue is empty, the resources are
+untouched, and every task node with an output is shallow-consistent: the set of all task nodes
+with output is `Settled` ("recorded stamps are current"). -/
+theorem C03_closure (fuel : Nat) (s' : Sess)
+    (hr : bottomUpBuild sem body fuel p.newSession changed = (s', .ok ())) :
+    s'.queue = [] ∧ s'.fs = p.fs ∧
+    (∀ n, s'.store.taskOutput n ≠ none → SC sem s'.store p.fs n) ∧
+    Settled sem p.fs s'.store (allOut s'.store) := by
+  have h := bottomUpBuild_closed hst hwfb hone hrefl hw hf hn hno hsr hrep fuel s' hr
+  exact ⟨h.queue, h.fsEq, h.sc, h.settled⟩
+
+/-! ### 4. the headline -/
+
+include hst hrefl hwfb hresp hone hw hf hn hno hsr hrep in
+/-- **C03.**  After a returning bottom-up build in which all changed resources were reported, for
+EVERY task `t` whose node has an output: the stored output is the from-scratch output for the
+current resources; a top-down `require` of `t` — in the same session `s'`, in a new session on
+`s'.toPie`, in fact in any session on that store and resource state — leaves the store
+unchanged, emits no `executeStart` event and returns the stored output or runs out of fuel; and
+for all sufficiently large fuels it returns the stored output. -/
+theorem C03_sources (fuel : Nat) (s' : Sess)
+    (hr : bottomUpBuild sem body fuel p.newSession changed = (s', .ok ()))
+    (t m : Nat) (o : Int) (ht : s'.store.taskOf m = some t) (ho : s'.store.taskOutput m = some o) :
+    Eval sem body p.fs t o ∧
+    (∀ fuel₂ (s : Sess), (s = s' ∨ s = s'.toPie.newSession) → ∀ s₂ r,
+      sessionRequire sem body fuel₂ s t = (s₂, r) →
+      s₂.store = s'.store ∧ s₂.fs = p.fs ∧
+      (∃ evs, s₂.trace = s.trace ++ evs ∧ ∀ u, Ev.executeStart u ∉ evs) ∧
+      (r = .ok o ∨ r = .abort .outOfFuel)) ∧
+    ∃ N, ∀ fuel₂, N ≤ fuel₂ → ∀ s : Sess, (s = s' ∨ s = s'.toPie.newSession) → ∀ s₂ r,
+      sessionRequire sem body fuel₂ s t = (s₂, r) → r = .ok o := by
+  have h := bottomUpBuild_closed hst hwfb hone hrefl hw hf hn hno hsr hrep fuel s' hr
+  obtain ⟨h1, h2, N, h3⟩ := h.sources hst hresp t m o ht ho
+  have hs : ∀ s : Sess, (s = s' ∨ s = s'.toPie.newSession) → s.store = s'.store ∧ s.fs = p.fs := by
+    rintro s (rfl | rfl)
+    · exact ⟨rfl, h.fsEq⟩
+    · exact ⟨rfl, h.fsEq⟩
+  exact ⟨h1, fun f s hh s₂ r heq => h2 f s (hs s hh).1 (hs s hh).2 s₂ r heq,
+    N, fun f hf s hh s₂ r heq => h3 f hf s (hs s hh).1 (hs s hh).2 s₂ r heq⟩
+
+/-! ### 6. chains of bottom-up builds -/
+
+include hst hrefl hwfb hone hw hf hn hno hsr hrep in
+/-- **C03 (chain).**  The `Pie` left by a returning bottom-up build satisfies all hypotheses on
+the store again — also after arbitrary further external changes, which do not touch the store —
+so that only `Reported` (w.r.t. the new resource state) remains the caller's obligation for the
+next bottom-up build. -/
+theorem C03_chain (fuel : Nat) (s' : Sess)
+    (hr : bottomUpBuild sem body fuel p.newSession changed = (s', .ok ())) (p' : PieSt)
+    (hp' : p'.store = s'.toPie.store) :
+    p'.store.WF ∧ Faithful sem body p'.store ∧ p'.store.NoReservedDone ∧ NoOrphan p'.store ∧
+      ShallowReq sem p'.store ∧ (p'.fs = p.fs → Reported sem p'.store p'.fs []) := by
+  have h := bottomUpBuild_closed hst hwfb hone hrefl hw hf hn hno hsr hrep fuel s' hr
+  rw [hp']
+  exact ⟨h.wf, h.faithful, h.nrd, h.orphan, h.shallowReq, fun hfs => by rw [hfs]; exact h.reported_nil⟩
+
+include hst hrefl hwfb hresp hone hw hf hn hno hsr hrep in
+/-- Two rounds: batch of changes → bottom-up build → more changes → bottom-up build. -/
+theorem C03_two_rounds (fuel : Nat) (s' : Sess)
+    (hr : bottomUpBuild sem body fuel p.newSession changed = (s', .ok ())) (p' : PieSt)
+    (hp' : p'.store = s'.toPie.store) (changed' : List Nat)
+    (hrep' : Reported sem p'.store p'.fs changed') (fuel' : Nat) (s'' : Sess)
+    (hr' : bottomUpBuild sem body fuel' p'.newSession changed' = (s'', .ok ()))
+    (t m : Nat) (o : Int) (ht : s''.store.taskOf m = some t)
+    (ho : s''.store.taskOutput m = some o) : Eval sem body p'.fs t o := by
+  obtain ⟨a1, a2, a3, a4, a5, _⟩ := C03_chain hst hrefl hwfb hone hw hf hn hno hsr hrep fuel s' hr p' hp'
+  exact (C03_sources hst hrefl hwfb hresp hone a1 a2 a3 a4 a5 hrep' fuel' s'' hr' t m o ht ho).1
+
+end
+
+/-! ### `ShallowReq` after a top-down session -/
+
+section
+variable (hst : StampTotal sem) (hrefl : Reflexive sem) (hwfb : WriteFreeBody body)
+  (hresp : ∀ t, Respects sem (body t)) (hone : ∀ t, OneChecker (body t))
+include hst hrefl hwfb hresp hone
+
+/-- After a returning top-down `Session::require`, every task that the session made consistent
+has an output and is shallow-consistent: in particular its require dependencies point to tasks
+with output and are accepted against these outputs. -/
+theorem C03_shallowReq_after_topDown (fuel : Nat) (s s' : Sess) (root : Nat) (o : Int)
+    (h : SInv sem body s.fs s) (hr : sessionRequire sem body fuel s root = (s', .ok o)) :
+    ∀ n ∈ s'.consistent, s'.store.taskOutput n ≠ none ∧ SC sem s'.store s'.fs n := by
+  obtain ⟨hS, _⟩ := C02_settled hst hwfb hresp hone hrefl fuel s s' root o h hr
+  have hw : s'.store.WF :=
+    ((sessionRequire_outcome hst hwfb hresp hone fuel s root h).ok _ _ hr).1.inv.wf.store
+  intro n hn
+  obtain ⟨⟨o', ho'⟩, hd⟩ := hS n hn
+  refine ⟨by rw [ho']; simp, fun e he => ?_⟩
+  have hsd := hd e.2 (Store.mem_depsFrom_iff.mpr ⟨e.1, he⟩)
+  have hok := (hw.mem_outgoingEdges_ok he).2
+  obtain ⟨dst, d⟩ := e
+  cases d with
+  | reserved => exact hsd.elim
+  | read r c stp => exact hsd
+  | write r c stp => exact hsd
+  | require u c stp =>
+    obtain ⟨m, o2, h1, _, h3, h4⟩ := hsd
+    have : dst = m := hw.taskOf_inj hok h1
+    subst this
+    exact ⟨o2, h3, h4⟩
+
+/-- If the session made every task with an output consistent, `ShallowReq` holds afterwards. -/
+theorem C03_shallowReq_after_full_topDown (fuel : Nat) (s s' : Sess) (root : Nat) (o : Int)
+    (h : SInv sem body s.fs s) (hr : sessionRequire sem body fuel s root = (s', .ok o))
+    (hall : ∀ n, s'.store.taskOutput n ≠ none → n ∈ s'.consistent) : ShallowReq sem s'.store := by
+  intro n hn dst u c stamp he
+  exact (C03_shallowReq_after_topDown hst hrefl hwfb hresp hone fuel s s' root o h hr n
+    (hall n hn)).2 _ he
+
+end
+
+/-! ### `NoOrphan` holds as long as no session aborted -/
+
+/-- The empty store has no orphan. -/
+theorem C03_noOrphan_empty : NoOrphan ({} : Store) := NoOrphan.empty
+
+/-- A returning top-down `Session::require` (of arbitrary task programs) preserves `NoOrphan`;
+so does a returning list of requires.  (A returning bottom-up build does, too: `C03_chain`;
+external changes do not touch the store.) -/
+theorem C03_noOrphan_after_topDown (sem : Sem) (body : Nat → Prog) (fuel : Nat) {s s' : Sess}
+    (h : SessWF s) (hno : NoOrphan s.store) :
+    (∀ t o, sessionRequire sem body fuel s t = (s', .ok o) → NoOrphan s'.store) ∧
+    (∀ ts os, requireAll sem body fuel s ts = (s', .ok os) → NoOrphan s'.store) :=
+  ⟨fun _ _ hr => sessionRequire_noOrphan fuel h hno hr,
+    fun ts _ hr => requireAll_noOrphan fuel ts h hno hr⟩
+
+/-! ### non-vacuity: a write-free diamond
+
+Task 3 (`U`) reads source 1; tasks 1 (`A`) and 2 (`B`) require `U`; task 0 (the top) requires `A`
+and `B`.  All dependencies use the exact checkers (id 0) of `reflSem`. -/
+
+def c03Body : Nat → Prog
+  | 0 => .req 1 0 (fun a => .req 2 0 (fun b => .ret (a + b)))
+  | 1 => .req 3 0 (fun u => .ret (u + 1))
+  | 2 => .req 3 0 (fun u => .ret (u + 2))
+  | 3 => .read 1 0 (fun x => match x with | .ok (some v) => .ret v | _ => .ret 0)
+  | _ => .ret 7
+
+theorem c03Body_writeFree : WriteFreeBody c03Body := by
+  intro t
+  match t with
+  | 0 => exact .req _ _ _ (fun a => .req _ _ _ (fun b => .ret _))
+  | 1 => exact .req _ _ _ (fun u => .ret _)
+  | 2 => exact .req _ _ _ (fun u => .ret _)
+  | 3 =>
+    refine .read _ _ _ (fun x => ?_)
+    split <;> exact .ret _
+  | _ + 4 => exact .ret _
+
+theorem c03Body_respects : ∀ t, Respects reflSem (c03Body t) := by
+  intro t
+  match t with
+  | 0 =>
+    exact ⟨fun o o' h => by rw [reflSem_ocheck0 h],
+      fun o => ⟨fun o1 o1' h => by rw [reflSem_ocheck0 h], fun _ => trivial⟩⟩
+  | 1 => exact ⟨fun o o' h => by rw [reflSem_ocheck0 h], fun o => trivial⟩
+  | 2 => exact ⟨fun o o' h => by rw [reflSem_ocheck0 h], fun o => trivial⟩
+  | 3 =>
+    refine ⟨fun v v' s h1 h2 => by rw [reflSem_rcheck0 h1 h2], fun x => ?_⟩
+    dsimp only
+    split <;> trivial
+  | _ + 4 => trivial
+
+theorem c03Body_oneChecker : ∀ t, OneChecker (c03Body t) := by
+  intro t
+  match t with
+  | 0 => simp [OneChecker, c03Body, OneCk]
+  | 1 => simp [OneChecker, c03Body, OneCk]
+  | 2 => simp [OneChecker, c03Body, OneCk]
+  | 3 =>
+    refine ⟨fun c' h => (nomatch h), fun x => ?_⟩
+    dsimp only
+    split <;> trivial
+  | _ + 4 => trivial
+
+/-- Source 1 holds 5. -/
+def c03Pie0 : PieSt := { fs := [(1, 5)] }
+
+/-- First build, top-down: the top is required. -/
+def c03Run1 := requireAll reflSem c03Body 30 c03Pie0.newSession [0]
+
+/-- Then source 1 is set to 6. -/
+def c03Pie1 : PieSt := c03Run1.1.toPie.setContent 1 (some 6)
+
+/-- The bottom-up build with `changed = [1]`. -/
+def c03Run2 := bottomUpBuild reflSem c03Body 30 c03Pie1.newSession [1]
+
+/-- The tasks executed in a tracker stream, in order. -/
+def execsOf (tr : List Ev) : List Nat :=
+  tr.filterMap fun e => match e with | .executeStart t => some t | _ => none
+
+/-- The first build executes all four tasks and returns 13; the bottom-up build re-executes all
+four (`U` first) and empties the queue. -/
+example : c03Run1.2.toOption = some [13] ∧ execsOf c03Run1.1.trace = [0, 1, 3, 2] ∧
+    c03Run2.2.toOption = some () ∧ execsOf c03Run2.1.trace = [3, 2, 1, 0] ∧
+    c03Run2.1.queue = [] := by with_unfolding_all decide
+
+/-- Afterwards, requiring any of the four tasks — in the same session or in a new one —
+executes nothing and returns the from-scratch output for source 1 = 6. -/
+example :
+    ([0, 1, 2, 3].map fun t =>
+      ((sessionRequire reflSem c03Body 30 c03Run2.1.toPie.newSession t).2.toOption,
+       execsOf (sessionRequire reflSem c03Body 30 c03Run2.1.toPie.newSession t).1.trace,
+       (sessionRequire reflSem c03Body 30 c03Run2.1 t).2.toOption,
+       (execsOf (sessionRequire reflSem c03Body 30 c03Run2.1 t).1.trace).length))
+      = [(some 15, [], some 15, 4), (some 7, [], some 7, 4), (some 8, [], some 8, 4),
+         (some 6, [], some 6, 4)] := by with_unfolding_all decide
+
+theorem c03Pie1_store : c03Pie1.store = c03Run1.1.store := C01_setContent_store _ _ _
+
+/-- The hypotheses of C03 hold of `c03Pie1`. -/
+theorem c03Pie1_hyps :
+    c03Pie1.store.WF ∧ Faithful reflSem c03Body c03Pie1.store ∧ c03Pie1.store.NoReservedDone ∧
+    NoOrphan c03Pie1.store ∧ ShallowReq reflSem c03Pie1.store ∧
+    Reported reflSem c03Pie1.store c03Pie1.fs [1] := by
+  have h1 := C01_faithful_session reflSem_stampTotal c03Body_writeFree c03Body_respects
+    c03Body_oneChecker 30 c03Pie0 Store.WF.empty Faithful.empty [0]
+  have h2 := (requireAll_sessOK reflSem c03Body 30
+    (sessOK_newSession c03Pie0 Store.WF.empty Store.NoReservedDone.empty) [0]).done.nrd
+  rw [c03Pie1_store]
+  exact ⟨h1.1, h1.2, h2, noOrphan_of_B (by with_unfolding_all decide),
+    shallowReq_of_B (by with_unfolding_all decide), reported_of_B (by with_unfolding_all decide)⟩
+
+theorem c03Run2_ok : bottomUpBuild reflSem c03Body 30 c03Pie1.newSession [1] = (c03Run2.1, .ok ()) := by
+  have h2 : c03Run2.2 = .ok () := Res.eq_ok_of_toOption (by with_unfolding_all decide)
+  rw [← h2]; rfl
+
+/-- The theorems applied to the run: the state after the bottom-up build is closed, ... -/
+example : c03Run2.1.queue = [] ∧ Settled reflSem c03Pie1.fs c03Run2.1.store (allOut c03Run2.1.store) :=
+  have h := c03Pie1_hyps
+  have c := C03_closure reflSem_stampTotal reflSem_reflexive c03Body_writeFree c03Body_oneChecker
+    h.1 h.2.1 h.2.2.1 h.2.2.2.1 h.2.2.2.2.1 h.2.2.2.2.2 30 c03Run2.1 c03Run2_ok
+  ⟨c.1, c.2.2.2⟩
+
+/-- ... 15 is the from-scratch output of the top for source 1 = 6, and no session on the
+resulting `Pie` executes anything when requiring it, whatever the fuel. -/
+example : Eval reflSem c03Body [(1, 6)] 0 15 ∧
+    ∀ fuel₂ s₂ r, sessionRequire reflSem c03Body fuel₂ c03Run2.1.toPie.newSession 0 = (s₂, r) →
+      ∀ u, Ev.executeStart u ∉ s₂.trace := by
+  have h := c03Pie1_hyps
+  obtain ⟨h1, h2, _⟩ := C03_sources reflSem_stampTotal reflSem_reflexive c03Body_writeFree
+    c03Body_respects c03Body_oneChecker h.1 h.2.1 h.2.2.1 h.2.2.2.1 h.2.2.2.2.1 h.2.2.2.2.2 30
+    c03Run2.1 c03Run2_ok 0 0 15 (by with_unfolding_all decide) (by with_unfolding_all decide)
+  have hfs : c03Pie1.fs = [(1, 6)] := by with_unfolding_all decide
+  rw [hfs] at h1
+  refine ⟨h1, fun fuel₂ s₂ r heq u hu => ?_⟩
+  obtain ⟨_, _, ⟨evs, he, hne⟩, _⟩ := h2 fuel₂ _ (.inr rfl) s₂ r heq
+  rw [he] at hu
+  exact hne u (by simpa [PieSt.newSession] using hu)
+
+/-! ### finding K1: `ShallowReq` cannot be dropped
+
+After the change of source 1, a top-down session requires only `A` (task 1): `U` is re-executed
+with a new output, `B` is not visited.  All hypotheses except `ShallowReq` hold of the resulting
+`Pie`; the bottom-up build with ALL changes reported finds nothing to do, and `B` is stale: a
+later `require` of `B` executes it. -/
+
+def c03K1Run := requireAll reflSem c03Body 30 c03Pie1.newSession [1]
+def c03K1Pie : PieSt := c03K1Run.1.toPie
+def c03K1Bu := bottomUpBuild reflSem c03Body 30 c03K1Pie.newSession [1]
+
+example :
+    -- the partial top-down session re-executes `U` and `A`
+    execsOf c03K1Run.1.trace = [3, 1] ∧
+    -- the store satisfies `NoOrphan` and `Reported` (for the same reported change), not `ShallowReq`
+    noOrphanB c03K1Pie.store = true ∧ reportedB reflSem c03K1Pie.store c03K1Pie.fs [1] = true ∧
+    shallowReqB reflSem c03K1Pie.store = false ∧
+    -- the bottom-up build returns without executing anything
+    c03K1Bu.2.toOption = some () ∧ execsOf c03K1Bu.1.trace = [] ∧
+    -- but `B` is stale: requiring it afterwards executes it (stored 7, from-scratch 8)
+    c03K1Bu.1.store.taskOf 4 = some 2 ∧ c03K1Bu.1.store.taskOutput 4 = some 7 ∧
+    (sessionRequire reflSem c03Body 30 c03K1Bu.1.toPie.newSession 2).2.toOption = some 8 ∧
+    execsOf (sessionRequire reflSem c03Body 30 c03K1Bu.1.toPie.newSession 2).1.trace = [2] := by
+  with_unfolding_all decide
+
+/-- The same as statements about the hypotheses: everything but `ShallowReq` holds. -/
+example : c03K1Pie.store.WF ∧ Faithful reflSem c03Body c03K1Pie.store ∧
+    c03K1Pie.store.NoReservedDone ∧ NoOrphan c03K1Pie.store ∧
+    Reported reflSem c03K1Pie.store c03K1Pie.fs [1] ∧ ¬ ShallowReq reflSem c03K1Pie.store := by
+  have hh := c03Pie1_hyps
+  have h1 := C01_faithful_session reflSem_stampTotal c03Body_writeFree c03Body_respects
+    c03Body_oneChecker 30 c03Pie1 hh.1 hh.2.1 [1]
+  have h2 := (requireAll_sessOK reflSem c03Body 30
+    (sessOK_newSession c03Pie1 hh.1 hh.2.2.1) [1]).done.nrd
+  exact ⟨h1.1, h1.2, h2, noOrphan_of_B (by with_unfolding_all decide),
+    reported_of_B (by with_unfolding_all decide),
+    not_shallowReq_of_B (by with_unfolding_all decide)⟩
+
+/-! ### why `Reported` covers write dependencies, too
+
+`ReportedRead` is `Reported` for read dependencies only.  It is not enough on a store that contains
+a write dependency (left by an earlier, non-write-free program): the top-down check validates
+write stamps, too.  Task 9 below once wrote 1 to resource 5; its program is now `ret 0` (write-free,
+and the store is `Faithful` for it); resource 5 is changed externally and — the task having no
+*read* dependency — nothing needs to be reported under `ReportedRead`.  The bottom-up build does
+nothing, and a later `require` of task 9 executes it. -/
+
+def ReportedRead (sem : Sem) (st : Store) (fs : List (Nat × Int)) (changed : List Nat) : Prop :=
+  ∀ n, st.taskOutput n ≠ none → ∀ dst r c stamp, (dst, Dep.read r c stamp) ∈ st.g.outgoingEdges n →
+    sem.rcheck c (aget fs r) stamp ≠ .ok true → r ∈ changed
+
+def c03WBody1 : Nat → Prog := fun _ => .write 5 0 (some 1) (fun _ => .ret 0)
+def c03WBody2 : Nat → Prog := fun _ => .ret 0
+def c03WRun1 := requireAll reflSem c03WBody1 10 ({} : PieSt).newSession [9]
+def c03WPie : PieSt := c03WRun1.1.toPie.setContent 5 (some 2)
+def c03WBu := bottomUpBuild reflSem c03WBody2 10 c03WPie.newSession []
+
+example :
+    WriteFreeBody c03WBody2 ∧ (∀ t, Respects reflSem (c03WBody2 t)) ∧
+    (∀ t, OneChecker (c03WBody2 t)) ∧
+    c03WPie.store.WF ∧ Faithful reflSem c03WBody2 c03WPie.store ∧ c03WPie.store.NoReservedDone ∧
+    NoOrphan c03WPie.store ∧ ShallowReq reflSem c03WPie.store ∧
+    ReportedRead reflSem c03WPie.store c03WPie.fs [] ∧
+    -- the bottom-up build returns, executing nothing
+    c03WBu.2.toOption = some () ∧ execsOf c03WBu.1.trace = [] ∧
+    -- but requiring the known task 9 (node 0, output 0) afterwards executes it
+    c03WBu.1.store.taskOf 0 = some 9 ∧ c03WBu.1.store.taskOutput 0 = some 0 ∧
+    execsOf (sessionRequire reflSem c03WBody2 10 c03WBu.1.toPie.newSession 9).1.trace = [9] := by
+  have hst : c03WPie.store = c03WRun1.1.store := C01_setContent_store _ _ _
+  have hwf : c03WRun1.1.store.WF :=
+    (requireAll_ext reflSem c03WBody1 10 [9] (C19_newSession_wf ({} : PieSt) Store.WF.empty)).wf.store
+  have hnrd := (requireAll_sessOK reflSem c03WBody1 10
+    (sessOK_newSession ({} : PieSt) Store.WF.empty Store.NoReservedDone.empty) [9]).done.nrd
+  have hlive : liveNodes c03WRun1.1.store = [0, 1] := by with_unfolding_all decide
+  have hcases : ∀ n, n = 0 ∨ n = 1 ∨ c03WRun1.1.store.taskOutput n = none := by
+    intro n
+    by_cases hl : n ∈ liveNodes c03WRun1.1.store
+    · rw [hlive] at hl
+      simp only [List.mem_cons, List.not_mem_nil, or_false] at hl
+      rcases hl with hl | hl
+      · exact .inl hl
+      · exact .inr (.inl hl)
+    · exact .inr (.inr (not_live_facts hl).1)
+  have hout1 : c03WRun1.1.store.taskOutput 1 = none := by with_unfolding_all decide
+  rw [hst]
+  refine ⟨fun _ => .ret _, fun _ => trivial, fun _ => trivial, hwf, ?_, hnrd,
+    noOrphan_of_B (by with_unfolding_all decide), shallowReq_of_B (by with_unfolding_all decide), ?_,
+    by with_unfolding_all decide, by with_unfolding_all decide, by with_unfolding_all decide,
+    by with_unfolding_all decide, by with_unfolding_all decide⟩
+  · intro n t v _ hv
+    rcases hcases n with rfl | rfl | hn
+    · have h0 : c03WRun1.1.store.taskOutput 0 = some 0 := by with_unfolding_all decide
+      rw [h0] at hv; cases hv
+      exact ⟨rfl, by with_unfolding_all decide⟩
+    · rw [hout1] at hv; cases hv
+    · rw [hn] at hv; cases hv
+  · intro n hn dst r c stamp hp _
+    rcases hcases n with rfl | rfl | hn'
+    · have h0 : c03WRun1.1.store.g.outgoingEdges 0 = [(1, .write 5 0 (.optInt (some 1)))] := by
+        with_unfolding_all decide
+      rw [h0] at hp
+      simp at hp
+    · exact absurd hout1 hn
+    · exact absurd hn' hn
+
 end PieModel
